@@ -206,7 +206,10 @@ func (enc *Encoder) Number(v uint32) *Encoder {
 }
 
 func (enc *Encoder) Number64(v int64) *Encoder {
-	// TODO: disallow negative values
+	if v < 0 {
+		enc.setErr(fmt.Errorf("imapwire: cannot encode negative number %v", v))
+		return enc
+	}
 	return enc.writeString(strconv.FormatInt(v, 10))
 }
 
